@@ -44,7 +44,9 @@ m = {
              "in the confirmed spelling. Thorough tier = quick + fault catalogue + robustness battery (14 behaviour-preserving transformations "
              "of the anchor modules). Every property also runs seven generic rules (DESIGN.md 2.2b). Measured on 200 seeded changes and 180 refactorings "
              "from independent sub-agents who saw only the property text: DESIGN.md 8-8f. "
-             "Genuine defects repaired in /repo by 'fix:' commits: " + ", ".join(FIX_COMMITS) + ". See DESIGN.md.",
+             "Genuine defects repaired in /repo by 'fix:' commits: " + ", ".join(FIX_COMMITS) + ". /repo also carries 44bcade (a behaviour-preserving "
+             "refactoring of pyrex/detector.py -- /verif/benign/C19-r3 -- that a cut-off measurement run left in the working tree and the session driver "
+             "committed) and its revert ae675af: net effect none, the checks are quiet on both trees (DESIGN.md 9a). See DESIGN.md.",
 }
 (HERE / "MANIFEST.json").write_text(json.dumps(m, indent=1) + "\n")
 print("wrote MANIFEST.json with", len(checks), "checks,", len(m["not_applicable"]), "not applicable")
